@@ -18,9 +18,11 @@ PID = 'C02'
 LEVEL = 'exploration'
 BUDGET_S = {'quick': 50, 'thorough': 700}
 FLOORS = {'quick': {'scenarios': 120, 'tms_tiles': 1500, 'wmts_kvp_tiles': 600, 'wmts_rest_tiles': 600, 'wmsc_tiles': 500,
-                    'kml_tiles': 150, 'tiles_origin_param': 500},
+                    'kml_tiles': 150, 'tiles_origin_param': 500, 'concurrent_capabilities_rounds': 35,
+                    'concurrent_capabilities_documents': 1800},
           'thorough': {'scenarios': 2500, 'tms_tiles': 30000, 'wmts_kvp_tiles': 12000, 'wmts_rest_tiles': 12000,
-                       'wmsc_tiles': 10000, 'kml_tiles': 3000, 'tiles_origin_param': 10000}}
+                       'wmsc_tiles': 10000, 'kml_tiles': 3000, 'tiles_origin_param': 10000,
+                       'concurrent_capabilities_rounds': 700, 'concurrent_capabilities_documents': 36000}}
 RULE = ("case = one generated grid + layer (srs incl. lat/long axis order, bbox class, origin ll/ul, tile size, "
         "factor-2/sqrt2/explicit ladders, global profiles, layer extent equal to or smaller than the grid, TMS origin "
         "option) probed through every tile service: all advertised levels, corner/edge/interior addresses. "
@@ -213,6 +215,78 @@ def gen_cases(run):
         yield {'i': 100000 + k, 'spec': spec}
     for i in range(run.pick(260, 5200)):
         yield {'i': i}
+
+
+def concurrent_capabilities(run, sc, bad, root):
+    """the documents a client builds its tile addresses from must not depend on what other clients ask at the same time:
+    every capabilities document is fetched alone (reference), then the same requests are issued from four real threads
+    (interpreter switch interval 1 microsecond) and every answer must be byte-identical to its reference. Requests differ
+    in document and in the host / script name the service URLs are built from."""
+    import threading
+    docs = [('/tms/1.0.0/', ''), ('/wmts/1.0.0/WMTSCapabilities.xml', ''),
+            ('/service', 'SERVICE=WMTS&VERSION=1.0.0&REQUEST=GetCapabilities'),
+            ('/service', 'SERVICE=WMS&VERSION=1.1.1&REQUEST=GetCapabilities'),
+            ('/service', 'SERVICE=WMS&VERSION=1.3.0&REQUEST=GetCapabilities'),
+            ('/service', 'SERVICE=WMS&VERSION=1.1.1&REQUEST=GetCapabilities&tiled=true')]
+    for t in root[:3]:
+        docs.append((urllib.parse.urlsplit(t['href']).path, ''))
+    heads = [{'Host': 'a.example'}, {'Host': 'b.example:8080'}, {'Host': 'c.example', 'X-Script-Name': '/proxy/c'},
+             {'X-Forwarded-Host': 'd.example', 'X-Forwarded-Proto': 'https'}]
+    reqs = [(p_, q_, h_) for (p_, q_) in docs for h_ in heads]
+
+    def fetch(p_, q_, h_):
+        r_ = sc.get(p_ + ('?' + q_ if q_ else ''), headers=h_)
+        return r_.code, r_.body
+    try:
+        ref = [fetch(*rq) for rq in reqs]
+    except Exception as ex:
+        run.dc('concurrent_capabilities_reference_failed:' + type(ex).__name__)
+        return
+    again = [fetch(*rq) for rq in reqs]
+    stable = [i for i in range(len(reqs)) if again[i] == ref[i] and ref[i][0] == 200]
+    if len(stable) < len(reqs):
+        run.count('capabilities_documents_not_repeatable_or_not_200', len(reqs) - len(stable))
+    diffs = []
+    lock = threading.Lock()
+    nthreads = 4
+    start = threading.Barrier(nthreads)
+
+    def client(k):
+        order = stable[k::nthreads] * 2 + stable[::-1][:8]
+        try:
+            start.wait(20)
+            for i in order:
+                got = fetch(*reqs[i])
+                if got != ref[i]:
+                    with lock:
+                        diffs.append((i, got))
+        except Exception as ex:
+            with lock:
+                diffs.append((-1, (0, repr(ex).encode())))
+    old_switch = sys.getswitchinterval()
+    sys.setswitchinterval(1e-6)
+    try:
+        ths = [threading.Thread(target=client, args=(k,)) for k in range(nthreads)]
+        for t in ths:
+            t.start()
+        for t in ths:
+            t.join(120)
+    finally:
+        sys.setswitchinterval(old_switch)
+    run.hit('concurrent_capabilities_rounds')
+    run.hit('concurrent_capabilities_documents', len(stable) * 2)
+    if diffs:
+        i, got = diffs[0]
+        if i < 0:
+            bad('capabilities', 'concurrent_request_raised', 'a capabilities request raised under concurrency: %r' % (got[1][:300],))
+            return
+        a, b = ref[i][1], got[1]
+        pos = next((k for k in range(min(len(a), len(b))) if a[k] != b[k]), min(len(a), len(b)))
+        bad('capabilities', 'document_differs_under_concurrency',
+            '%d of %d concurrently fetched documents differ from the same request issued alone; first: %s?%s headers %r: status %d vs '
+            '%d, first difference at byte %d: alone %r, concurrently %r' % (
+                len(diffs), len(stable) * 2, reqs[i][0], reqs[i][1], reqs[i][2], ref[i][0], got[0], pos, a[max(0, pos - 60):pos + 60],
+                b[max(0, pos - 60):pos + 60]))
 
 
 def run_case(run, case):
@@ -465,6 +539,12 @@ def _run(run, case, spec, rng, d):
     except Exception as ex:
         import traceback
         bad('kml', 'capabilities_unusable', 'KML documents could not be used: %r %s' % (ex, traceback.format_exc()[-600:]))
+    if case['i'] % 3 == 0 or run.replaying:
+        try:
+            root_ = root
+        except NameError:
+            root_ = []
+        concurrent_capabilities(run, sc, bad, root_)
     run.hit('scenarios')
     run.count('upstream_calls', len(upstream.UP.log))
     upstream.UP.reset_log()
